@@ -9,12 +9,17 @@ META = {
         "exactly [flags] ++ be32(packet id or 0) ++ [len(extra)] ++ raw_body, followed - iff the ACK flag is set - by the acks "
         "big-endian in reverse order and the count byte; nothing else, for every raw body, ack list and id (loop invariant over "
         "the ack loop, universally quantified ghost index; BufferWriter/SerializablePrimitive inlined from the real source). "
-        "B (bounded, labelled): header parser + lazy/eager parse + text heuristics + failed-parse frame condition over generated, "
+        "UDPMessageDeserializer._parse_message_header on a datagram that is not zero-coded returns exactly those fields back: flags, id, "
+        "offset byte, the acks in their original order (reverse of the wire order, count byte last) and raw_body = the bytes between "
+        "header and ack trailer (the trailer is snipped); it rejects datagrams whose trailer would collide with the header. The real "
+        "BufferReader, scoped_seek context manager and primitives are inlined. Together: what serialize writes for an unparsed message "
+        "is what the header parser reads (composition checked in the bounded tier). "
+        "B (bounded, labelled): zero-coded header peek, lazy/eager parse + text heuristics + failed-parse frame condition over generated, "
         "non-canonically re-zero-coded, truncated, extended and bit-flipped datagrams x inspection orders."),
     "trusted_base": [
         "struct.Struct.pack: exact built-in model; template lookup by name: external",
-        "_parse_message_header, parse_message_body, _parse_var: bounded tier only (template walk / scoped_seek context manager "
-        "outside the subset)",
+        "_parse_msg_num: assumed contract (reads 1..4 bytes), checked against every template in the bounded tier; zero-coded branch of "
+        "_parse_message_header, parse_message_body, _parse_var: bounded tier only (template walk, C03 prefix properties)",
         "canonical zero-coding = fixed point of zero_code_compress . zero_code_expand (C03's functions)",
     ],
 }
@@ -22,6 +27,8 @@ META = {
 
 def register(reg):
     udp_common.reg_serialize_raw(reg, PID)
+    udp_common.reg_parse_header(reg, PID)
+    reg.fns["hippolyzer.lib.base.message.udpdeserializer:UDPMessageDeserializer._parse_message_header@plain"].also.append("C01")
 
 
 from contracts import c01_native
